@@ -8,7 +8,7 @@ import tempfile
 
 from pv import lib_keyfiles as kf
 from pv import lib_keys as lk
-from pv.core import hx
+from pv.core import hx, unhx
 
 
 def check_loaded(ctx, kind, key, case):
@@ -110,7 +110,7 @@ class Rec:
     """records the third-party calls of one load (bcrypt.kdf, cipher decryption, key construction, DER parsing)"""
 
     def __init__(self, limit=64):
-        self.kdf, self.dec, self.key, self.seeds, self.der = [], [], [], [], []
+        self.kdf, self.dec, self.key, self.seeds, self.der, self.b64 = [], [], [], [], [], []
         self.limit = limit
 
     def __enter__(self):
@@ -123,7 +123,19 @@ class Rec:
         rec = self
         saved = self._saved = [(pp, "bcrypt", pp.bcrypt), (pd, "bcrypt", pd.bcrypt), (pp, "Cipher", pp.Cipher),
                                (pd, "Cipher", pd.Cipher), (pr, "rsa", pr.rsa), (pe, "ec", pe.ec), (pd, "nacl", pd.nacl),
-                               (pr, "serialization", pr.serialization), (pe, "serialization", pe.serialization)]
+                               (pr, "serialization", pr.serialization), (pe, "serialization", pe.serialization),
+                               (pp, "decodebytes", pp.decodebytes)]
+        real_decodebytes = pp.decodebytes
+
+        def decodebytes(data):
+            try:
+                out = real_decodebytes(data)
+            except Exception as e:  # noqa: BLE001
+                rec.b64.append(type(e).__name__)
+                raise
+            rec.b64.append(out.hex() or "-")
+            return out
+        pp.decodebytes = decodebytes
         real_bcrypt, real_cipher, real_rsa, real_ec, real_nacl, real_ser = pp.bcrypt, pp.Cipher, pr.rsa, pe.ec, pd.nacl, pr.serialization
 
         class Delegate:
@@ -232,12 +244,17 @@ class Rec:
             setattr(mod, name, val)
 
 
-def load_recorded(kind, text_bytes, password):
-    """('ok', key)|('exc', e)|('skip', why), recorder"""
+def load_recorded(kind, text_bytes, password, path=None):
+    """('ok', key)|('exc', e)|('skip', why), recorder; with ``path`` the raw bytes are read through
+    from_private_key_file, otherwise as latin-1 text through from_private_key"""
     import io
     cls = lk.key_class(kind)
     with Rec() as rec:
         try:
+            if path is not None:
+                with open(path, "wb") as f:
+                    f.write(text_bytes)
+                return ("ok", cls.from_private_key_file(path, password=password)), rec
             return ("ok", cls.from_private_key(io.StringIO(text_bytes.decode("latin-1")), password=password)), rec
         except kf.KdfTooCostly:
             return ("skip", "kdf-rounds"), rec
@@ -420,6 +437,77 @@ def container_stream(ctx):
             ctx.disagree("_unpad_openssh", {"data": body.hex()}, umodel[i], impl)
 
 
+def text_stream(ctx):
+    """correspondence at the level of the file's lines: byte-level and container mutants of every corpus file,
+    read through both entry points; the lines are the ones CPython's text layer produces, every third-party
+    answer (base64 included) is recorded from the real run"""
+    import io
+    import os
+
+    rng = ctx.rng
+    corp = kf.corpus(ctx.thorough)
+    datas = [c[3] for c in corp]
+    tmp = tempfile.mkdtemp(prefix="pv-c37t-")
+    path = os.path.join(tmp, "k")
+    per = 60 if ctx.thorough else 24
+    reqs, cases = [], []
+    try:
+        for label, kind, pw, data, slow in corp:
+            variants = [("intact", data)]
+            for i in range(per // 3 if slow else per):
+                m = kf.mutate_container(rng, data) if i % 3 == 2 else None
+                if m is None:
+                    m = kf.mutate_bytes(rng, data, datas)
+                variants.append(m)
+            for vi, (mlabel, mdata) in enumerate(variants):
+                k2 = kind if (kind != "other" and rng.random() < 0.8) else rng.choice(["rsa", "ec", "ed"])
+                p = rng.choice([None, pw, "wrong"]) if pw is not None else rng.choice([None, "x"])
+                if mlabel == "intact":
+                    p = pw
+                if slow and p is not None and mlabel != "intact" and rng.random() < 0.6:
+                    p = None
+                use_file = vi % 2 == 0
+                if use_file:
+                    with open(path, "wb") as f:
+                        f.write(mdata)
+                    try:
+                        with open(path, "r") as f:
+                            lines = f.readlines()
+                    except UnicodeDecodeError:
+                        ctx.dist("text:not-utf8(oracle only)")
+                        continue
+                else:
+                    lines = io.StringIO(mdata.decode("latin-1")).readlines()
+                res, rec = load_recorded(k2, mdata, p, path if use_file else None)
+                if res[0] == "skip":
+                    ctx.dist("skipped:" + res[1])
+                    continue
+                b64 = last(rec.b64)
+                if k2 == "ed" and b64 not in ("unused", "Error") and ed_pad(unhx(b64)) > 4096:
+                    ctx.dist("skipped:huge-zero-pad")
+                    continue
+                impl = "ok" if res[0] == "ok" else "exc " + type(res[1]).__name__
+                ltok = ",".join(".".join(str(ord(ch)) for ch in ln) for ln in lines) if lines else "none"
+                seeds = ",".join("%s:%s" % (hx(a), b) for a, b in rec.seeds) or "-"
+                reqs.append("text %s %s %s %s %s %s %s %s %s" % (k2, pw_tok(p), ltok, b64, last(rec.kdf), last(rec.dec),
+                                                           last(rec.key), seeds, last(rec.der)))
+                cases.append((label, mlabel, k2, p, "file" if use_file else "obj", impl, res, mdata))
+    finally:
+        shutil.rmtree(tmp, ignore_errors=True)
+    model = ctx.driver("C37", reqs)
+    for i, (label, mlabel, k2, p, how, impl, res, mdata) in enumerate(cases):
+        ctx.case(("text", k2, p, how, mdata), mlabel != "intact")
+        ctx.dist("text:%s:%s" % (k2, mlabel.split("+")[0].split("=")[0].split(":")[0]))
+        ctx.dist("text-outcome:" + impl.split()[0] + (":" + impl.split()[1] if impl.startswith("exc") else ""))
+        case = {"file": label, "mutation": mlabel, "class": k2, "passphrase": p, "entry": how, "data_hex": mdata.hex()}
+        if model is not None and model[i] != impl:
+            ctx.disagree("text-load", dict(case, request=reqs[i][:2000]), model[i], impl)
+        if res[0] == "exc" and not isinstance(res[1], _ssh()):
+            ctx.fail(kf.key_site(res[1]), case, repr(res[1]))
+        elif res[0] == "ok":
+            check_loaded(ctx, k2, res[1], case)
+
+
 def _ssh():
     from paramiko.ssh_exception import SSHException
     return SSHException
@@ -435,8 +523,8 @@ def run(ctx):
                 "(EC in RSA armor, Ed448/secp256k1/DSA). correspondence: well-armored files with arbitrary container bodies "
                 "vs the Lean container model with the recorded third-party answers. distinct = distinct (file bytes, class, "
                 "passphrase, entry point); non-trivial = the file is a mutant")
-    ctx.trust("text level of the loader (line scanning, armor regexes, header splitting, base64) is NOT modelled: covered by "
-              "the oracle only", "bcrypt.kdf, cryptography ciphers / load_der_private_key / RSAPrivateNumbers / "
+    ctx.trust("CPython text layer (open(..., 'r') / StringIO.readlines) produces the lines handed to the model; "
+              "base64.decodebytes recorded per call", "bcrypt.kdf, cryptography ciphers / load_der_private_key / RSAPrivateNumbers / "
               "derive_private_key, nacl SigningKey: recorded per call and handed to the model; assumed to raise only the "
               "classes listed in PrimSpec where paramiko catches ValueError only")
     ctx.assume("PrimSpec: bcrypt.kdf, cipher construction/finalize and nacl SigningKey raise only ValueError subclasses; "
@@ -444,6 +532,7 @@ def run(ctx):
                "bcrypt round counts above 64 in mutated files are not executed (generator cap, counted as skipped)")
     ctx.build()
     container_stream(ctx)
+    text_stream(ctx)
     oracle_stream(ctx)
 
 
@@ -465,11 +554,14 @@ META = {
               "allowed by PrimSpec: the loaders only end in ok / SSHException / PasswordRequiredException - (1) the PEM/DER route "
               "(Proc-Type/DEK-Info handling, unhexlify, decryption, PKCS7 unpadding, load_der, type/curve checks), (2) the OpenSSH "
               "container reader of RSAKey/ECDSAKey (magic, cstruct unpacking, kdf and cipher dispatch, bcrypt, decryption, "
-              "checkints, _unpad_openssh, key numbers), (3) the Ed25519 reader; and an Ed25519 key that loads "
+              "checkints, _unpad_openssh, key numbers), (3) the Ed25519 reader, and (4) on top of them the text level of "
+              "_read_private_key / _read_private_key_pem on the file's lines (text_outcome: scan for the BEGIN/END armor tags, "
+              "key-type dispatch, header block with Proc-Type/DEK-Info, base64 as a parameter that raises only binascii.Error) "
+              "for all three classes; and an Ed25519 key that loads "
               "carries the verify key derived from its seed. Tied to pkey.py/rsakey.py/ecdsakey.py/ed25519key.py by differential "
               "runs with third-party answers recorded from the real run, plus a byte-level mutation oracle over every bundled and "
-              "generated key file. The text level (line scan, armor regexes, header splitting, base64) is covered by the oracle "
-              "only."),
+              "generated key file. Outside the model: CPython's text layer (UTF-8 decoding and newline handling that turn file "
+              "bytes into lines - a file that does not decode is refused with SSHException, oracle-checked)."),
     "note": ("Trusted: Lean kernel + 3 axioms; PrimSpec (which exception classes bcrypt/cryptography/nacl/base64 raise); the "
              "recorded primitive answers; Message/UTF-8 models (C39/C35); Python's str.split/strip/re on ASCII text as modelled. "
              "Found and fixed by this check (12 fix: commits): IndexError (_unpad_openssh), AssertionError (Ed25519 reader, "
